@@ -268,14 +268,14 @@ def scan(prog):
 
 
 def obligations(prog):
-    armed = set(load_table("inb_sites.json")["armed"])
+    from core import armed_group_obligations
+    groups = load_table("inb_sites.json")["groups"]
     sites = scan(prog)
-    obs = []
     for s in sites:
-        if s["id"] in armed:
-            obs.append(Obligation("R-INB", s["id"], s["loc"], s["fn"], s["text"], s["proved"], s["detail"], props=s["props"]))
-    return obs, {"sites": len(sites), "armed": len(armed), "armed_found": len(obs),
-                 "not_armed": [s["id"] + " @" + s["loc"] + ": " + s["detail"] for s in sites if s["id"] not in armed]}
+        s["idbase"] = s["id"].rsplit("#", 1)[0]
+    obs = armed_group_obligations("R-INB", sites, groups)
+    return obs, {"sites": len(sites), "armed_groups": len(groups), "armed_sites": sum(groups.values()),
+                 "not_provable_sites": [s["id"] + " @" + s["loc"] + ": " + s["detail"] for s in sites if not s["proved"]]}
 
 
 if __name__ == "__main__":
@@ -283,8 +283,13 @@ if __name__ == "__main__":
     prog = program("K0")
     sites = scan(prog)
     if len(sys.argv) > 1 and sys.argv[1] == "regen":
-        json.dump({"_comment": "R-INB instances proved on the reviewed tree (python3 rules/r_inb.py regen).",
-                   "armed": sorted(s["id"] for s in sites if s["proved"])}, open(os.path.join(VERIF, "tables", "inb_sites.json"), "w"), indent=0)
+        groups = {}
+        for s in sites:
+            if s["proved"]:
+                b = s["id"].rsplit("#", 1)[0]
+                groups[b] = groups.get(b, 0) + 1
+        json.dump({"_comment": "R-INB: per (function, read kind) the number of sites proved on the reviewed tree (python3 rules/r_inb.py regen).",
+                   "groups": dict(sorted(groups.items()))}, open(os.path.join(VERIF, "tables", "inb_sites.json"), "w"), indent=0)
     for s in sites:
         print("PROVED " if s["proved"] else "UNPROVED", s["id"], s["loc"], "|", s["text"][:90], "|", s["detail"][:110])
     print(sum(1 for s in sites if s["proved"]), "proved of", len(sites))
